@@ -1,4 +1,5 @@
 from __future__ import annotations
+import copy
 import struct
 from typing import List, Tuple, Optional
 
@@ -124,6 +125,7 @@ class NakPdu(AbstractFileDirectiveBase):
             list element is the start offset and the second entry is the end offset. If the
             start and end offset are both 0, the metadata is re-requested.
         """
+        pdu_conf = copy.copy(pdu_conf)
         pdu_conf.direction = Direction.TOWARDS_SENDER
         self.pdu_file_directive = FileDirectivePduBase(
             directive_code=DirectiveType.NAK_PDU,
